@@ -98,6 +98,8 @@ func (c *Ctx) c10Judge(es []Ev, rej int) {
 			key = "C10/accepts-invalid/key-reference-to-marked-float" // the only deviation is the float bit of the AllowKeyable mask
 		} else if relaxed, _ := wfCheckRelaxed(es, rc.MaxArray, int(rc.MaxIdent), false, true); relaxed == rej {
 			key = "C10/marker-on-chunked-key-not-registered"
+		} else if wfLateUTF8(es, rej, want, rc.MaxArray, int(rc.MaxIdent)) {
+			key = "C10/late-rejection/invalid-utf8-noticed-after-the-offending-data-event"
 		} else if (want < 0 || rej < want) && rej >= 0 && hasNestedMarker(es, rej) {
 			key = "C10/rejects-valid/marker-inside-marked-container"
 		}
@@ -128,7 +130,10 @@ func runC10(c *Ctx) {
 	}
 	// side streams inside the two known deviation classes, and their fixed witnesses
 	for _, w := range []string{"bd v:0 l mk:61 l mk:62 pi:1 e e ed", "bd v:0 l mk:61 fl:3ff8000000000000 m ref:61 null e e ed",
-		"bd v:0 m mk:62 uid:30313233343536373839616263646566 null mk:62 ab:2 ac:0:false null e ed"} {
+		"bd v:0 m mk:62 uid:30313233343536373839616263646566 null mk:62 ab:2 ac:0:false null e ed",
+		// invalid UTF-8 split over data events: noticed late (open finding), in list / key / edge positions
+		"bd v:0 l ab:1 ac:3:false ad:e0 ad:41 ad:a0 e ed", "bd v:0 m ab:1 ac:4:false ad:f0 ad:e0 ad:a0 ad:80 null e ed",
+		"bd v:0 edge ab:2 ac:3:false ad:e0 ad:e0 ad:a0 pi:1 pi:2 e ed", "bd v:0 l ab:1 ac:2:true ad:c3 ad:a9 ac:3:false ad:e2 ad:82 ad:ac e ed"} {
 		es, _ := parseEvs(w)
 		rej, _ := c.addRulesCase(rc, es)
 		c.Count(w, true)
